@@ -241,6 +241,8 @@ func TestVfWire(t *testing.T) {
 	must(err)
 	must(vfIP("addr", "add", "10.8.0.1/16", "dev", "vft0"))
 	must(vfIP("link", "set", "vft0", "up"))
+	wireMon := vfStartStallMon()
+	defer close(wireMon.stop)
 	var runOnce func(sc vfWireScen) map[string]interface{}
 	defer func() {
 		vfReadNDJSON(t, os.Getenv("VF_SCENARIOS"), func(raw json.RawMessage) {
@@ -250,8 +252,15 @@ func TestVfWire(t *testing.T) {
 			}
 			// a run during which the capturing socket itself lost frames says nothing about sx: repeat it (at most twice)
 			for attempt := 0; ; attempt++ {
+				from := time.Now()
 				ev := runOnce(sc)
-				if d, _ := ev["drops"].(int); d == 0 || attempt == 2 {
+				ev["stallUs"] = wireMon.worst(from, time.Now())
+				paced := false
+				for _, a := range sc.Args {
+					paced = paced || a == "--rate"
+				}
+				// ... and so does a paced run during which this process was held up for more than 20 ms (its capture times are late)
+				if d, _ := ev["drops"].(int); (d == 0 && !(paced && ev["stallUs"].(int) > 20000)) || attempt == 2 {
 					ev["attempts"] = attempt + 1
 					out.write([]map[string]interface{}{ev})
 					break
